@@ -1,0 +1,209 @@
+//go:build verif
+
+package websocket
+
+// Contracts for the deductive verifier in /verif (comment-only file, build tag verif).
+
+// C19, graphql-transport-ws: step contracts of the message handlers. They hold for every pre-state of the handler,
+// hence for every sequence of client messages. Events: disconnected (a close frame is sent; the close code is the
+// ghost g_code of the function that builds the reason), started (an operation is handed to the engine), acked.
+//@ func NewCloseReason
+//@   pure
+//@   trusted builds a websocket close frame from code and text (gobwas/ws)
+
+//@ func ProtocolGraphQLTransportWSHandler.closeConnectionWithReason
+//@   requires p != nil
+//@   ensures {one.close.frame} count(disconnected) == old(count(disconnected)) + 1
+//@   modifies global(ext), count(disconnected)
+
+//@ func GraphQLTransportWSMessageWriter.write
+//@   requires g != nil
+//@   ensures {at.most.one.message} count(wroteMsg) <= old(count(wroteMsg)) + 1
+//@   modifies *, count(wroteMsg)
+//@   safety lockbalance-off
+//@   safety no-locks
+
+//@ func GraphQLTransportWSMessageWriter.WriteConnectionAck
+//@   requires g != nil
+//@   ensures {at.most.one.message.never.a.close} count(wroteMsg) <= old(count(wroteMsg)) + 1
+//@   modifies *, count(wroteMsg)
+//@ func GraphQLTransportWSMessageWriter.WritePing
+//@   requires g != nil
+//@   ensures {at.most.one.message.never.a.close} count(wroteMsg) <= old(count(wroteMsg)) + 1
+//@   modifies *, count(wroteMsg)
+//@ func GraphQLTransportWSMessageWriter.WritePong
+//@   requires g != nil
+//@   ensures {at.most.one.message.never.a.close} count(wroteMsg) <= old(count(wroteMsg)) + 1
+//@   modifies *, count(wroteMsg)
+//@ func GraphQLTransportWSMessageWriter.WriteNext
+//@   requires g != nil
+//@   ensures {at.most.one.message.never.a.close} count(wroteMsg) <= old(count(wroteMsg)) + 1
+//@   modifies *, count(wroteMsg)
+//@ func GraphQLTransportWSMessageWriter.WriteError
+//@   requires g != nil
+//@   ensures {at.most.one.message.never.a.close} count(wroteMsg) <= old(count(wroteMsg)) + 1
+//@   modifies *, count(wroteMsg)
+//@ func GraphQLTransportWSMessageWriter.WriteComplete
+//@   requires g != nil
+//@   ensures {at.most.one.message.never.a.close} count(wroteMsg) <= old(count(wroteMsg)) + 1
+//@   modifies *, count(wroteMsg)
+
+//@ func GraphQLTransportWSEventHandler.HandleWriteEvent
+//@   requires g != nil
+//@   ensures {known.types.write.one.message.and.never.close} messageType == GraphQLTransportWSMessageTypeComplete || messageType == GraphQLTransportWSMessageTypeNext || messageType == GraphQLTransportWSMessageTypeError || messageType == GraphQLTransportWSMessageTypeConnectionAck || messageType == GraphQLTransportWSMessageTypePing || messageType == GraphQLTransportWSMessageTypePong ==> count(disconnected) == old(count(disconnected)) && count(wroteMsg) <= old(count(wroteMsg)) + 1
+//@   modifies *, count(wroteMsg), count(disconnected)
+
+//@ func ProtocolGraphQLTransportWSHandler.handleSubscribe
+//@   requires p != nil
+//@   ghost var g_code int = 0
+//@   at call NewCloseReason: ghost g_code = arg0
+//@   ensures {subscribe.before.init.closes.with.4401} !old(p.connectionInitialized) ==> g_code == 4401
+//@   ensures {subscribe.before.init.closes.once.and.starts.nothing} !old(p.connectionInitialized) ==> count(disconnected) == old(count(disconnected)) + 1 && count(started) == old(count(started))
+//@   ensures {at.most.one.operation.started.and.only.when.initialised} count(started) <= old(count(started)) + 1 && (count(started) > old(count(started)) ==> old(p.connectionInitialized))
+//@   ensures {initialised.subscribe.never.closes} old(p.connectionInitialized) ==> count(disconnected) == old(count(disconnected))
+//@   ensures {state.unchanged} p.connectionInitialized == old(p.connectionInitialized)
+//@   modifies *, count(disconnected), count(started)
+
+//@ func ProtocolGraphQLTransportWSHandler.stopConnectionInitTimer
+//@   requires p != nil
+//@   modifies p.connectionInitTimeOutCancel, global(ext)
+
+//@ decl funcfield ProtocolGraphQLTransportWSHandler.initFunc pure
+//@ decl stable ProtocolGraphQLTransportWSHandler.connectionInitialized by ProtocolGraphQLTransportWSHandler.handleInit
+//@ func ProtocolGraphQLTransportWSHandler.handleInit
+//@   requires p != nil
+//@   ghost var g_code int = 0
+//@   ghost var g_acked bool = false
+//@   at call NewCloseReason: ghost g_code = arg0
+//@   at call GraphQLTransportWSEventHandler.HandleWriteEvent: assert {only.the.ack.is.written.on.init} arg1 == GraphQLTransportWSMessageTypeConnectionAck && !g_acked && !old(p.connectionInitialized)
+//@   at call GraphQLTransportWSEventHandler.HandleWriteEvent: ghost g_acked = true
+//@   ensures {second.init.closes.with.4429.without.ack} old(p.connectionInitialized) ==> g_code == 4429 && !g_acked
+//@   ensures {second.init.closes.once} old(p.connectionInitialized) ==> count(disconnected) == old(count(disconnected)) + 1 && result1 == nil
+//@   ensures {rejected.init.is.silent} result1 != nil ==> !g_acked
+//@   ensures {rejected.init.leaves.the.state.unchanged} result1 != nil ==> p.connectionInitialized == old(p.connectionInitialized) && count(disconnected) == old(count(disconnected)) && count(wroteMsg) == old(count(wroteMsg))
+//@   ensures {initialised.only.with.ack.or.close} !old(p.connectionInitialized) && result1 == nil ==> g_acked || count(disconnected) == old(count(disconnected)) + 1
+//@   ensures {accepted.init.initialises} result1 == nil ==> p.connectionInitialized
+//@   modifies *, count(disconnected), count(wroteMsg)
+
+//@ func ProtocolGraphQLTransportWSHandler.handlePing
+//@   requires p != nil
+//@   ensures {ping.never.closes} count(disconnected) == old(count(disconnected))
+//@   modifies *, count(wroteMsg), count(disconnected)
+
+//@ func ProtocolGraphQLTransportWSHandler.handleComplete
+//@   requires p != nil
+//@   ensures {complete.starts.nothing} count(started) == old(count(started))
+//@   modifies global(ext), count(stopped)
+
+//@ func GraphQLTransportWSMessageReader.Read
+//@   modifies global(ext)
+//@   fresh
+//@   trusted json.Unmarshal of the client frame into a fresh message (encoding/json is outside the modelled subset)
+//@ func ProtocolGraphQLTransportWSHandler.startConnectionInitTimer
+//@   requires p != nil
+//@   modifies p.connectionInitTimeOutCancel, p.connectionInitTimerStarted, global(ext)
+//@   trusted starts the time-out goroutine (context + go statement); touches only the timer fields
+//@ func ProtocolGraphQLTransportWSHandler.startHeartbeat
+//@   requires p != nil
+//@   modifies p.heartbeatStarted, global(ext)
+//@   trusted starts the heartbeat goroutine once; touches only heartbeatStarted
+
+// the init time-out action
+//@ func ProtocolGraphQLTransportWSHandler.startConnectionInitTimer$1
+//@   assumes p != nil
+//@   ghost var g_code int = 0
+//@   at call NewCloseReason: ghost g_code = arg0
+//@   ensures {init.timeout.closes.with.4408} count(disconnected) == old(count(disconnected)) + 1 && g_code == 4408
+//@   modifies global(ext), count(disconnected)
+
+//@ func ProtocolGraphQLTransportWSHandler.Handle
+//@   requires p != nil
+//@   ghost var g_code int = 0
+//@   ghost var g_type GraphQLTransportWSMessageType = ""
+//@   ghost var g_readErr bool = false
+//@   ghost var g_syntax bool = false
+//@   ghost var g_initErr bool = false
+//@   at call NewCloseReason: ghost g_code = arg0
+//@   at call GraphQLTransportWSMessageReader.Read: ghost g_type = result0.Type
+//@   at call GraphQLTransportWSMessageReader.Read: ghost g_readErr = result1 != nil
+//@   at call errors.As: ghost g_syntax = result
+//@   at call ProtocolGraphQLTransportWSHandler.handleInit: ghost g_initErr = result1 != nil
+//@   let init0 = p.connectionInitialized
+//@   ensures {no.operation.starts.before.a.successful.init} count(started) > old(count(started)) ==> init0
+//@   ensures {at.most.one.operation.per.message} count(started) <= old(count(started)) + 1
+//@   ensures {json.syntax.error.closes.with.4400} g_readErr && g_syntax ==> count(disconnected) == old(count(disconnected)) + 1 && g_code == 4400 && count(started) == old(count(started)) && result == nil
+//@   ensures {unreadable.frame.starts.nothing} g_readErr ==> count(started) == old(count(started)) && p.connectionInitialized == init0
+//@   ensures {unknown.message.type.closes.with.4400} !g_readErr && g_type != GraphQLTransportWSMessageTypeConnectionInit && g_type != GraphQLTransportWSMessageTypePing && g_type != GraphQLTransportWSMessageTypePong && g_type != GraphQLTransportWSMessageTypeSubscribe && g_type != GraphQLTransportWSMessageTypeComplete ==> count(disconnected) == old(count(disconnected)) + 1 && g_code == 4400 && count(started) == old(count(started)) && p.connectionInitialized == init0
+//@   ensures {subscribe.before.init.closes.and.starts.nothing} !g_readErr && g_type == GraphQLTransportWSMessageTypeSubscribe && !init0 ==> count(disconnected) == old(count(disconnected)) + 1 && count(started) == old(count(started))
+//@   ensures {second.init.closes} !g_readErr && g_type == GraphQLTransportWSMessageTypeConnectionInit && init0 ==> count(disconnected) == old(count(disconnected)) + 1 && !g_initErr
+//@   ensures {rejected.init.closes.with.4401.and.stays.uninitialised} !g_readErr && g_type == GraphQLTransportWSMessageTypeConnectionInit && g_initErr ==> count(disconnected) == old(count(disconnected)) + 1 && g_code == 4401 && p.connectionInitialized == init0 && result != nil
+//@   ensures {only.init.initialises} p.connectionInitialized != init0 ==> !g_readErr && g_type == GraphQLTransportWSMessageTypeConnectionInit && !g_initErr
+//@   ensures {ping.pong.complete.never.close} !g_readErr && (g_type == GraphQLTransportWSMessageTypePing || g_type == GraphQLTransportWSMessageTypePong || g_type == GraphQLTransportWSMessageTypeComplete) ==> count(disconnected) == old(count(disconnected)) && count(started) == old(count(started))
+//@   modifies *, count(disconnected), count(started), count(stopped), count(wroteMsg)
+
+//@ decl funcfield GraphQLTransportWSEventHandler.OnConnectionOpened pure
+//@ func GraphQLTransportWSEventHandler.Emit
+//@   requires g != nil
+//@   ghost var g_code int = 0
+//@   ghost var g_n int = 0
+//@   ghost var g_first int = 0
+//@   ghost var g_second int = 0
+//@   at call NewCloseReason: ghost g_code = arg0
+//@   at call GraphQLTransportWSEventHandler.HandleWriteEvent: assert {messages.carry.the.event.id} arg2 == id
+//@   at call GraphQLTransportWSEventHandler.HandleWriteEvent: ghost g_first = ite(g_n == 0, arg1, g_first)
+//@   at call GraphQLTransportWSEventHandler.HandleWriteEvent: ghost g_second = ite(g_n == 1, arg1, g_second)
+//@   at call GraphQLTransportWSEventHandler.HandleWriteEvent: ghost g_n = g_n + 1
+//@   ensures {duplicate.id.closes.with.4409} eventType == subscription.EventTypeOnDuplicatedSubscriberID ==> count(disconnected) == old(count(disconnected)) + 1 && g_code == 4409 && g_n == 0
+//@   ensures {data.is.one.next} eventType == subscription.EventTypeOnSubscriptionData ==> g_n == 1 && g_first == GraphQLTransportWSMessageTypeNext && count(disconnected) == old(count(disconnected))
+//@   ensures {completed.is.one.complete} eventType == subscription.EventTypeOnSubscriptionCompleted ==> g_n == 1 && g_first == GraphQLTransportWSMessageTypeComplete && count(disconnected) == old(count(disconnected))
+//@   ensures {error.is.one.error} eventType == subscription.EventTypeOnError ==> g_n == 1 && g_first == GraphQLTransportWSMessageTypeError && count(disconnected) == old(count(disconnected))
+//@   ensures {result.is.next.then.complete} eventType == subscription.EventTypeOnNonSubscriptionExecutionResult ==> g_n == 2 && g_first == GraphQLTransportWSMessageTypeNext && g_second == GraphQLTransportWSMessageTypeComplete && count(disconnected) == old(count(disconnected))
+//@   ensures {other.events.are.silent} eventType != subscription.EventTypeOnDuplicatedSubscriberID && eventType != subscription.EventTypeOnSubscriptionData && eventType != subscription.EventTypeOnSubscriptionCompleted && eventType != subscription.EventTypeOnError && eventType != subscription.EventTypeOnNonSubscriptionExecutionResult ==> g_n == 0 && count(disconnected) == old(count(disconnected)) && count(wroteMsg) == old(count(wroteMsg))
+//@   modifies *, count(disconnected), count(wroteMsg)
+
+// ----------------------------------------------------------------------------------------------
+// C19, graphql-ws (subscriptions-transport-ws): event to message mapping and the message switch
+//@ func GraphQLWSMessageReader.Read
+//@   modifies global(ext)
+//@   fresh
+//@   trusted json.Unmarshal of the client frame into a fresh message
+//@ func GraphQLWSWriteEventHandler.HandleWriteEvent
+//@   requires g != nil
+//@   modifies *, count(wroteMsg)
+//@   safety no-locks
+//@ func GraphQLWSWriteEventHandler.Emit
+//@   requires g != nil
+//@   ghost var g_n int = 0
+//@   ghost var g_first int = 0
+//@   ghost var g_second int = 0
+//@   at call GraphQLWSWriteEventHandler.HandleWriteEvent: assert {messages.carry.the.event.id} arg2 == id
+//@   at call GraphQLWSWriteEventHandler.HandleWriteEvent: ghost g_first = ite(g_n == 0, arg1, g_first)
+//@   at call GraphQLWSWriteEventHandler.HandleWriteEvent: ghost g_second = ite(g_n == 1, arg1, g_second)
+//@   at call GraphQLWSWriteEventHandler.HandleWriteEvent: ghost g_n = g_n + 1
+//@   ensures {data.is.one.data} eventType == subscription.EventTypeOnSubscriptionData ==> g_n == 1 && g_first == GraphQLWSMessageTypeData
+//@   ensures {completed.is.one.complete} eventType == subscription.EventTypeOnSubscriptionCompleted ==> g_n == 1 && g_first == GraphQLWSMessageTypeComplete
+//@   ensures {error.and.duplicate.id.are.one.error} eventType == subscription.EventTypeOnError || eventType == subscription.EventTypeOnDuplicatedSubscriberID ==> g_n == 1 && g_first == GraphQLWSMessageTypeError
+//@   ensures {result.is.data.then.complete} eventType == subscription.EventTypeOnNonSubscriptionExecutionResult ==> g_n == 2 && g_first == GraphQLWSMessageTypeData && g_second == GraphQLWSMessageTypeComplete
+//@   ensures {connection.error.is.one.connection.error} eventType == subscription.EventTypeOnConnectionError ==> g_n == 1 && g_first == GraphQLWSMessageTypeConnectionError
+//@   ensures {other.events.are.silent} eventType != subscription.EventTypeOnSubscriptionData && eventType != subscription.EventTypeOnSubscriptionCompleted && eventType != subscription.EventTypeOnError && eventType != subscription.EventTypeOnDuplicatedSubscriberID && eventType != subscription.EventTypeOnNonSubscriptionExecutionResult && eventType != subscription.EventTypeOnConnectionError ==> g_n == 0 && count(wroteMsg) == old(count(wroteMsg))
+//@   modifies *, count(wroteMsg)
+
+//@ decl funcfield ProtocolGraphQLWSHandler.initFunc pure
+//@ func ProtocolGraphQLWSHandler.handleInit
+//@   requires p != nil
+//@   ghost var g_acked bool = false
+//@   at call GraphQLWSWriteEventHandler.HandleWriteEvent: assert {only.the.ack.is.written.on.init} arg1 == GraphQLWSMessageTypeConnectionAck && !g_acked
+//@   at call GraphQLWSWriteEventHandler.HandleWriteEvent: ghost g_acked = true
+//@   ensures {ack.iff.accepted} (result1 == nil) == g_acked
+//@   ensures {rejected.init.is.silent} result1 != nil ==> count(wroteMsg) == old(count(wroteMsg))
+//@   modifies *, count(wroteMsg)
+
+//@ func ProtocolGraphQLWSHandler.Handle
+//@   requires p != nil
+//@   ghost var g_type GraphQLWSMessageType = ""
+//@   ghost var g_readErr bool = false
+//@   at call GraphQLWSMessageReader.Read: ghost g_type = result0.Type
+//@   at call GraphQLWSMessageReader.Read: ghost g_readErr = result1 != nil
+//@   ensures {only.start.starts.an.operation} count(started) <= old(count(started)) + 1 && (count(started) > old(count(started)) ==> !g_readErr && g_type == GraphQLWSMessageTypeStart)
+//@   ensures {only.stop.stops.an.operation} count(stopped) > old(count(stopped)) ==> !g_readErr && g_type == GraphQLWSMessageTypeStop
+//@   modifies *, count(started), count(stopped), count(wroteMsg), count(disconnected)
